@@ -439,5 +439,43 @@ def rfcApplyOp (doc : J) : SOp → SRes
 
 def rfcApply (ops : List SOp) (doc : J) : SRes := ops.foldlM rfcApplyOp doc
 
+/-! ## Relating the two: RFC operations on reference tokens as patch.py operations -/
+
+/-- The part `JSONPointer._index` makes of a reference token (tokens whose integer value is out
+    of range make the constructor raise; they are excluded as extensions where this is used). -/
+def toPart (t : Str) : Part :=
+  match indexOf t with
+  | .ok p => p
+  | .error _ => .key t
+
+def toParts (ts : List Str) : List Part := ts.map toPart
+
+def opOfSpec : SOp → Op
+  | .add p v => .add (toParts p) v
+  | .remove p => .remove (toParts p)
+  | .replace p v => .replace (toParts p) v
+  | .move s d => .move (toParts s) (toParts d)
+  | .copy s d => .copy (toParts s) (toParts d)
+  | .test p v => .test (toParts p) v
+
+def SOp.tokens : SOp → List Str
+  | .add p _ => p
+  | .remove p => p
+  | .replace p _ => p
+  | .move s d => s ++ d
+  | .copy s d => s ++ d
+  | .test p _ => p
+
+/-- No token of the operation uses a documented pointer extension. -/
+def SOp.standard (op : SOp) : Prop := ∀ t ∈ op.tokens, isExtensionToken t = false
+
+/-- Code result matches spec result: same document on success; `JSONPatchTestFailure` for a failed
+    test; some patch-family error for an RFC violation. -/
+def Refines (code : Res J) (spec : SRes) : Prop :=
+  match spec with
+  | .ok d => code = .ok d
+  | .error .testFailed => code = .error .patchTest
+  | .error .violation => ∃ e, code = .error e ∧ e.isPatchFamily = true
+
 end Patch
 end JP
